@@ -743,6 +743,85 @@ async def run_task_case(raises, ops):
     return outs
 
 
+async def run_task_window_case(raises, n, hold=0.06):
+    """close() is called from ANOTHER THREAD (as the subprocess' main thread does for the tasks of a traced event loop) and
+    polls while the registered tasks end one after the other; for each task the window between `task.done()` becoming true
+    and the loop running the task's done-callbacks is held open: a callback added to the task BEFORE it was registered (so it
+    runs first) keeps the loop thread busy for `hold` seconds.  Observed with clocks: when each callback was invoked, when
+    close() returned and what it raised.  -> dict"""
+    import time
+    from nextline.utils.done_callback.task import TaskDoneCallback
+    loop = asyncio.get_running_loop()
+    t_cb, excs = {}, {}
+    idx, futs, tasks = {}, {}, {}
+
+    def done(task):
+        t = idx[task]
+        t_cb.setdefault(t, []).append(time.monotonic())
+        if t in raises:
+            e = ValueError(f'task-callback-{t}')
+            excs[id(e)] = t
+            raise e
+
+    obj = TaskDoneCallback(done=done)
+
+    async def body(t):
+        await futs[t]
+
+    for t in range(1, n + 1):
+        futs[t] = loop.create_future()
+        tasks[t] = asyncio.ensure_future(body(t))
+        idx[tasks[t]] = t
+        tasks[t].add_done_callback(lambda _task, hold=hold: time.sleep(hold))     # runs before the helper's own callback
+        await asyncio.sleep(0)
+        obj.register(tasks[t])
+    result = {}
+
+    def close_target():
+        try:
+            obj.close(interval=0.0005)
+            result['raised'] = None
+        except BaseException as e:   # noqa
+            result['raised'] = excs.get(id(e), repr(e))
+        result['t'] = time.monotonic()
+
+    closer = threading.Thread(target=close_target, daemon=True)
+    closer.start()
+    await asyncio.sleep(0.01)
+    for t in range(1, n + 1):
+        futs[t].set_result(None)
+        await asyncio.sleep(0)
+        await asyncio.sleep(0)
+    for _ in range(400):
+        if not closer.is_alive():
+            break
+        await asyncio.sleep(0.005)
+    return {'n': n, 'raises': sorted(raises), 't_cb': {str(k): v for k, v in t_cb.items()}, 'close': dict(result), 'closer_alive': closer.is_alive()}
+
+
+def oracle_task_window(o: dict) -> list:
+    bad = []
+    if o['closer_alive'] or 't' not in o['close']:
+        return [('task:close-hangs', 'close() called from another thread never returned although every registered task ended')]
+    for t in range(1, o['n'] + 1):
+        cbs = o['t_cb'].get(str(t), [])
+        if len(cbs) != 1:
+            bad.append(('task:callback-count', f'callback invoked {len(cbs)} times for task {t}'))
+        elif cbs[0] > o['close']['t']:
+            bad.append(('task:close-early:before-callback', f'close() (from another thread) returned before the callback of registered task {t} had been invoked: '
+                                                           f'the task was done but its done-callbacks had not run yet'))
+    want = o['raises'][0] if o['raises'] else None
+    got = o['close'].get('raised')
+    if not bad and got != want:
+        bad.append(('task:exception-lost' if want is not None and got is None else 'task:close-raised-other',
+                    f'close() raised {got!r}, the first raising callback is that of task {want}'))
+    seen, res = set(), []
+    for s0, w in bad:
+        if s0 not in seen:
+            seen.add(s0); res.append((s0, w))
+    return res
+
+
 def oracle_task(raises, ops, outs) -> list:
     bad = []
     pending, finished = set(), set()      # registered-and-owed, ended
@@ -1042,6 +1121,15 @@ def correspond(ctx) -> Corr:
             tcases.append((raises, ops, outs))
             for sig, what in oracle_task(raises, ops, outs):
                 corr.violations.append(Violation(sig, what, {'half': 'task', 'raises': sorted(raises), 'ops': ops, 'observed': outs}))
+        # close() from another thread with the done()/callback window of every task held open
+        nwin = 0
+        for n, raises in ([(1, set()), (2, {2}), (3, {1, 3})] if ctx.tier == 'quick' else
+                          [(n, set(r)) for n in (1, 2, 3, 5) for r in ([], [1], [n], list(range(1, n + 1)))]):
+            o = loop.run_until_complete(run_task_window_case(raises, n))
+            nwin += 1
+            for sig, what in oracle_task_window(o):
+                corr.violations.append(Violation(sig, what, {'half': 'task-window', 'n': n, 'raises': sorted(raises), 'observed': o}))
+        corr.extra['task_window_cases'] = nwin
     finally:
         loop.close()
     CH = 400
@@ -1094,7 +1182,12 @@ def search(ctx, broken) -> list:
 
 def replay(ctx, path: Path) -> int:
     j = json.loads(path.read_text())
-    if j.get('half') == 'task':
+    if j.get('half') == 'task-window':
+        loop = asyncio.new_event_loop()
+        o = loop.run_until_complete(run_task_window_case(set(j.get('raises', [])), j['n']))
+        print('observed:', o)
+        bad = oracle_task_window(o)
+    elif j.get('half') == 'task':
         loop = asyncio.new_event_loop()
         outs = loop.run_until_complete(run_task_case(set(j.get('raises', [])), j['ops']))
         bad = oracle_task(set(j.get('raises', [])), j['ops'], outs)
